@@ -4,5 +4,5 @@ From Coq Require Import NArith List.
 From Blue Require Import Lsm.Model Lsm.History.
 Require Import ExtrOcamlBasic.
 Extraction Language OCaml.
-Extraction "../ocaml/lsm/gen_lsm.ml" init_at step acceptedb get load valid_compactionb vc_shape vc_slice vc_rest vc_range vc_closed vc_ids outputs_okb
+Extraction "../ocaml/lsm/gen_lsm.ml" init_at step acceptedb get load valid_compactionb vc_shape vc_slice vc_rest vc_range vc_closed vc_ids outputs_okb gc_outputs_okb
   wf_versionb orderedb apply_compaction flush subsetb file_entries sort_entries N.of_nat N.to_nat N.add N.mul N.div_eucl.
